@@ -807,7 +807,7 @@ def _with_directions(rng, rule, pkt, every_position=None):
     r['fields'] = out
     return r
 
-UNPARSER_SPECS = 10     # the two IP-in-UDP specs at the end are switched on once `PacketParser.unparse` keeps their field order
+UNPARSER_SPECS = 12
 
 def _gen_unparser(rng, q, props):
     """explicit stacks with CoAP options in semantic mode (and predictive single parsers), rule by recipe, decompress with
@@ -820,7 +820,7 @@ def _gen_unparser(rng, q, props):
              ('IPv6+IPv6+UDP+CoAPs', 'tunnel6', False), ('IPv6+IPv6+UDP+CoAP', 'tunnel6', False),
              # the same header classes again AFTER the transport header (IPv6 in UDP in IPv6): each checksum takes the addresses
              # of the nearest IP header in front of it
-             ('IPv6+UDP+IPv6+UDP', 'udptunnel6', True), ('IPv4+UDP+IPv4+UDP', 'udptunnel4', True)][:UNPARSER_SPECS]
+             ('IPv6+UDP+IPv6+UDP', 'udptunnel6', False), ('IPv4+UDP+IPv4+UDP', 'udptunnel4', False)][:UNPARSER_SPECS]
     recipes = ['v', 'n', 'vn', 'nlv', 'vlm', 'mnv', 'cv', 'cn', 'cvl', 'l']
     styles = ['small', 'mixed', 'boundary', 'big', 'repeat', 'none']
     for i in range(N):
